@@ -9,9 +9,9 @@ Oracle: reference R p + t (float64; data spans are <= 1e12 so float64 is adequat
 relative to the data magnitude), shapes for d x N and M-valued cases, (XY)p = X(Yp),
 X^-1(Xp) = p.
 """
-import itertools, math
+import itertools, math, operator
 import numpy as np
-from mc import ref, alph
+from mc import ref, alph, hist
 from mc.core import call
 
 PROP = 'C06'
@@ -272,7 +272,7 @@ def relational_multi(ctx, cname):
             X, Y = mk([m for _, m in sx]), mk([m for _, m in sy])
             for pn, p in PT:
                 cid = 'C06/%s/relmulti/M=%d/start=%d/p=%s' % (cname, Mn, start, pn)
-                if not ctx.want(cid):
+                if not (ctx.want(cid) or (ctx.only and ctx.only.startswith(cid + '/'))):
                     continue
                 ctx.case(cid, key=cid)
                 Pm = dict(cls=cname, M=Mn, point=pn, multi=1)
@@ -289,6 +289,36 @@ def relational_multi(ctx, cname):
                 sc = max(1.0, float(np.abs(p).max()), tmax)
                 for law, got, want in (('(XY)p', r[0], want_xy), ('X^-1 p', r[1], want_inv), ('(X/Y)p', r[2], want_div)):
                     check_value(ctx, cid, site, dict(Pm, law=law), got, want, sc, shape=(dim, Mn))
+                # every length pairing (1xM, Mx1, MxM) of the binary and of the in-place operators, then the point
+                for (lx, ly), (on, of) in itertools.product(((1, Mn), (Mn, 1), (Mn, Mn)), (('*', operator.mul), ('*=', operator.imul), ('/', operator.truediv), ('/=', operator.itruediv))):
+                    cid2 = cid + '/%dx%d/%s' % (lx, ly, on)
+                    if not ctx.want(cid2):
+                        continue
+                    ctx.case(cid2, key=cid2)
+                    ax, ay = sx[:lx], sy[:ly]
+                    Xa, Ya = mk([m for _, m in ax]), mk([m for _, m in ay])
+                    ok2, r2 = call(lambda: of(Xa, Ya) * p.copy())
+                    P2 = dict(Pm, law='(X %s Y)p' % on, m=lx, n=ly)
+                    if not ok2:
+                        ctx.fail(cid2, site, 'raises:' + type(r2).__name__, P2, '%r' % (r2,))
+                        continue
+                    cols = []
+                    for j in range(Mn):
+                        mx, my = ax[j if lx > 1 else 0][1], ay[j if ly > 1 else 0][1]
+                        cols.append(apply_ref(mx, apply_ref(my if on[0] == '*' else inv(my), p).ravel()).ravel())
+                    check_value(ctx, cid2, site, P2, r2, np.stack(cols, axis=1), sc, shape=(dim, Mn))
+                # the multi-valued pose with a history: X * p had been used before the object received its present values
+                wantX = np.stack([apply_ref(mx, p).ravel() for _, mx in sx], axis=1)
+                for tag, Xh in hist.variants(mk([m for _, m in sx]), lambda o: o * p.copy(), fresh=False):
+                    cid3 = cid + '/hist=' + tag
+                    if not ctx.want(cid3):
+                        continue
+                    ctx.case(cid3, key=cid3)
+                    ok3, r3 = call(lambda: Xh * p.copy())
+                    if not ok3:
+                        ctx.fail(cid3, site, 'raises:' + type(r3).__name__, dict(Pm, hist=tag), '%r' % (r3,))
+                    else:
+                        check_value(ctx, cid3, site, dict(Pm, hist=tag, law='Xp'), r3, wantX, sc, shape=(dim, Mn))
 
 
 def udq_assoc(ctx):
